@@ -23,6 +23,7 @@ type Gate interface {
 }
 
 type gateImpl struct {
+	initialCount  uint16
 	count         uint16
 	arrived       uint16
 	gateCondition *sync.Cond
@@ -121,11 +122,17 @@ func (g *gateImpl) Clear() {
 	g.canceled = false
 	g.arrived = 0
 	g.err = nil
+	// a cleared gate expects what a new one expects: a count set for an earlier use must not refuse or lose arrivals of the next
+	g.count = g.initialCount
+	if g.arrived == g.count {
+		g.gateCondition.Broadcast()
+	}
 }
 
 // NewGate returns new gate instance.
 func NewGate(count uint16) Gate {
 	return &gateImpl{
+		initialCount:  count,
 		count:         count,
 		gateCondition: sync.NewCond(&sync.Mutex{}),
 	}
